@@ -433,17 +433,28 @@ EOF_KINDS = {"eof_after_kw", "eof_mid", "eof_before_end", "insert_eof", "foreign
              "lastword_array_open", "rawstr_open", "lone_quote", "lone_dquote", "raw", "valid"}
 
 
-def sanitized_subset(cases, budget):
-    """one case per (variant, keyword, mistake): first the mistakes of EOF_KINDS, then the others, up to the budget"""
+EOF_PRIORITY = ["valid", "insert_eof", "eof_after_kw", "eof_mid", "eof_before_end", "empty_arg", "drop_semi", "drop_close", "open_opt",
+                "open_iface", "lastword_array_open", "drop_rbr", "drop_rpa", "drop_gt", "open_str", "open_str_last", "foreign_eof",
+                "open_comment", "open_comment_after", "rawstr_open", "lone_quote", "lone_dquote", "raw"]
+ASAN_BUDGET = int(os.environ.get("VF_ASAN_BUDGET", "1000"))
+
+
+def sanitized_subset(cases, budget=None):
+    """one case per (keyword, mistake): first the mistakes of EOF_KINDS in the order of EOF_PRIORITY, then a regular sample
+    of the others, up to the budget (VF_ASAN_BUDGET)"""
+    budget = budget or ASAN_BUDGET
+    rank = {k: i for i, k in enumerate(EOF_PRIORITY)}
     seen, first, second = set(), [], []
     for c in cases:
-        k = (c["dsl"], c["kw"], c["mut"])
+        k = (c["kw"], c["mut"])
         if k in seen:
             continue
         seen.add(k)
         (first if c["mut"] in EOF_KINDS else second).append(c)
-    out = first[:budget]
-    if len(out) < budget and second:
+    first.sort(key=lambda c: (rank.get(c["mut"], len(rank)), c["id"]))
+    keep = min(len(first), (budget * 4) // 5)
+    out = first[:keep]
+    if second and len(out) < budget:
         step = max(1, len(second) // (budget - len(out)))
         out += second[::step][:budget - len(out)]
     return out
